@@ -462,3 +462,37 @@ def stop_race_tainted(reqs: list[tuple], alive_at_tick_start: dict, name_of: dic
                     # an older conflicting request that (re-)creates its instance in the Stop's cancel tick
                     out |= {a for a, ticks in init_ticks.items() if q[0] in ticks and conflicts(name_of[a], o[1])}
     return out
+
+
+# ------------------------------------------------------------------------------------------------
+# UOD with a caller-chosen set of overlap lists (C11 multi-overlap stratum). Additive: nothing above uses this.
+def overlap_uod_factory(overlaps, long_n: int = 4, fail_at: int = 1):
+    """uod_factory for R.EngineRig: the standard rig UOD (R.make_uod, same commands/callback log), but declared with the
+    given overlap lists instead of the single [Long, Long2]. The lists are declared through the real
+    UodBuilder.with_command_overlap, in the given order, right before the real UodBuilder.build runs."""
+    from openpectus.lang.exec.uod import UodBuilder
+    lists = [list(o) for o in overlaps]
+
+    def factory(log):
+        orig_build = UodBuilder.build
+
+        def build(self):
+            self.overlapping_command_names_lists.clear()
+            for o in lists:
+                self.with_command_overlap(list(o))
+            return orig_build(self)
+        UodBuilder.build = build
+        try:
+            return R.make_uod(log, long_n=long_n, fail_at=fail_at)
+        finally:
+            UodBuilder.build = orig_build
+    return factory
+
+
+def make_conflicts(overlaps):
+    """conflict predicate of a UOD configuration: same name, or both names in ANY one declared overlap list"""
+    sets = tuple(frozenset(o) for o in overlaps)
+
+    def conflicts(a: str, b: str) -> bool:
+        return a == b or any(a in o and b in o for o in sets)
+    return conflicts
